@@ -14,6 +14,7 @@ pub fn gen_case(fam: &str, r: &mut Rng, i: u64, p: &HashMap<String, String>) -> 
         "c11" => c11(r, i, p),
         "c14" => c14(r, i, p),
         "c07" => c07(r, i, p),
+        "c10" => c10(r, i, p),
         "c05" => c05(r, i, p),
         "c06" => c06(r, i, p),
         "c08" => c08(r, i, p),
@@ -476,4 +477,42 @@ fn c06(r: &mut Rng, i: u64, p: &HashMap<String, String>) -> Vec<Value> {
     let t = regular_table(&mut g, nrows, ncols, spans, false, true, &mut next, &mut cells, true);
     let w = if r.chance(1, 2) { r.range(1, 30) } else { r.range(1, wmax(p, 100)) };
     vec![json!({"id": id("c06", i), "meta": {"cells": cells}, "runs": [run(&doc_html(&[t]), w, cfg("plain", vec![]), "string")]})]
+}
+
+/// C10: 1-2 documents, one configuration, a random valid history of one-shot and staged calls over a
+/// few widths (repeated, out of order, including widths that fail).
+fn c10(r: &mut Rng, i: u64, p: &HashMap<String, String>) -> Vec<Value> {
+    let ndocs = 1 + r.below(2) as usize;
+    let mut docs = vec![];
+    for _ in 0..ndocs {
+        let mut f = if r.chance(1, 2) { Feat::all() } else { Feat::notables() };
+        f.ids = r.chance(1, 4);
+        let mut g = G::new(r, f);
+        docs.push(doc_html(&g.flow(0)));
+    }
+    let deco = *r.pick(&["plain", "rich", "trivial", "plain_nd"]);
+    let mut ops = opts_c02(r);
+    if r.chance(1, 6) { ops.push(json!(["overflow"])); }
+    let nw = 2 + r.below(3);
+    let mut widths: Vec<u64> = (0..nw).map(|_| if r.chance(1, 3) { r.range(1, 6) } else { r.range(1, wmax(p, 80)) }).collect();
+    if r.chance(1, 4) { widths.push(0); }
+    let routes: Vec<&str> = if deco == "rich" { vec!["string", "lines", "coloured"] } else { vec!["string", "lines"] };
+    let nops = r.range(4, p.get("ops").and_then(|s| s.parse().ok()).unwrap_or(14));
+    let mut hist: Vec<Value> = vec![];
+    let mut doms: Vec<usize> = vec![];           // dom handle -> doc
+    let mut trees: Vec<(usize, bool)> = vec![];  // tree handle -> (doc, live)
+    // every document gets a one-shot string rendering at its first width, so that there is a reference
+    for d in 0..ndocs { hist.push(json!({"op": "oneshot", "doc": d + 1, "w": widths[0], "route": "string"})); }
+    while (hist.len() as u64) < nops {
+        let live: Vec<usize> = trees.iter().enumerate().filter(|(_, t)| t.1).map(|(k, _)| k).collect();
+        match r.below(10) {
+            0 | 1 => { let d = r.below(ndocs as u64) as usize; hist.push(json!({"op": "oneshot", "doc": d + 1, "w": *r.pick(&widths), "route": *r.pick(&routes)})); }
+            2 => { let d = r.below(ndocs as u64) as usize; doms.push(d); hist.push(json!({"op": "parse", "doc": d + 1})); }
+            3 | 4 if !doms.is_empty() => { let k = r.below(doms.len() as u64) as usize; trees.push((doms[k], true)); hist.push(json!({"op": "tree", "dom": k + 1})); }
+            5 | 6 if !live.is_empty() => { let t = *r.pick(&live); trees.push((trees[t].0, true)); hist.push(json!({"op": "clone", "tree": t + 1})); }
+            7 | 8 | 9 if !live.is_empty() => { let t = *r.pick(&live); trees[t].1 = false; hist.push(json!({"op": "render", "tree": t + 1, "w": *r.pick(&widths), "route": *r.pick(&routes)})); }
+            _ => {}
+        }
+    }
+    vec![json!({"id": id("c10", i), "docs": docs, "cfg": cfg(deco, ops), "hist": hist})]
 }
